@@ -29,11 +29,11 @@ Lemma src_storeRegionWeightPath_ok : src_storeRegionWeightPath =
 Proof. reflexivity. Qed.
 
 Lemma skel_LoadStores_ok : skel_LoadStores =
-  [Assign "nextID" ":= uint64(0)"; Call "storePath"; Assign "endKey" ":= s.storePath(math.MaxUint64)"; ForE [Call "storePath"; Assign "key" ":= s.storePath(nextID)"; Call "LoadRange"; Assign "res" ":= s.LoadRange(key, endKey, minKVRangeLimit)"; IfE "err != nil" [Ret] []; ForE [Call "Unmarshal"; IfE "err != nil" [Ret] []; Call "loadFloatWithDefaultValue"; IfE "err != nil" [Ret] []; Call "loadFloatWithDefaultValue"; IfE "err != nil" [Ret] []; Call "NewStoreInfo"; Assign "nextID" "= store.GetId() + 1"; Call "f"]; IfE "len(res) < minKVRangeLimit" [Ret] []]].
+  [Assign "nextID" ":= uint64(0)"; Call "storePath"; Assign "endKey" ":= s.storePath(math.MaxUint64) + ""\x00"""; ForE [Call "storePath"; Assign "key" ":= s.storePath(nextID)"; Call "LoadRange"; Assign "res" ":= s.LoadRange(key, endKey, minKVRangeLimit)"; IfE "err != nil" [Ret] []; ForE [Call "Unmarshal"; IfE "err != nil" [Ret] []; Call "loadFloatWithDefaultValue"; IfE "err != nil" [Ret] []; Call "loadFloatWithDefaultValue"; IfE "err != nil" [Ret] []; Call "NewStoreInfo"; Assign "nextID" "= store.GetId() + 1"; Call "f"]; IfE "len(res) < minKVRangeLimit || nextID == 0" [Ret] []]].
 Proof. reflexivity. Qed.
 
 Lemma skel_loadRegions_ok : skel_loadRegions =
-  [Assign "nextID" ":= uint64(0)"; Call "regionPath"; Assign "endKey" ":= regionPath(math.MaxUint64)"; Assign "rangeLimit" ":= maxKVRangeLimit"; ForE [Call "regionPath"; Assign "startKey" ":= regionPath(nextID)"; Call "LoadRange"; Assign "res" ":= kv.LoadRange(startKey, endKey, rangeLimit)"; IfE "err != nil" [Assign "rangeLimit" "/= 2"; Ret] []; ForE [Call "Unmarshal"; IfE "err != nil" [Ret] []; Call "DecryptRegion"; IfE "err != nil" [Ret] []; Assign "nextID" "= region.GetId() + 1"; Call "NewRegionInfo"; Call "f"; Assign "overlaps" ":= f(NewRegionInfo(region, nil))"; ForE [Call "deleteRegion"; IfE "err != nil" [Ret] []]]; IfE "len(res) < rangeLimit" [Ret] []]].
+  [Assign "nextID" ":= uint64(0)"; Call "regionPath"; Assign "endKey" ":= regionPath(math.MaxUint64) + ""\x00"""; Assign "rangeLimit" ":= maxKVRangeLimit"; ForE [Call "regionPath"; Assign "startKey" ":= regionPath(nextID)"; Call "LoadRange"; Assign "res" ":= kv.LoadRange(startKey, endKey, rangeLimit)"; IfE "err != nil" [Assign "rangeLimit" "/= 2"; Ret] []; ForE [Call "Unmarshal"; IfE "err != nil" [Ret] []; Call "DecryptRegion"; IfE "err != nil" [Ret] []; Assign "nextID" "= region.GetId() + 1"; Call "NewRegionInfo"; Call "f"; Assign "overlaps" ":= f(NewRegionInfo(region, nil))"; ForE [Call "deleteRegion"; IfE "err != nil" [Ret] []]]; IfE "len(res) < rangeLimit || nextID == 0" [Ret] []]].
 Proof. reflexivity. Qed.
 
 Lemma src_loadRegions_retry_ok : src_loadRegions_retry =
@@ -93,11 +93,11 @@ Lemma src_SaveStore_ok : src_SaveStore =
 Proof. reflexivity. Qed.
 
 Lemma src_DeleteStore_ok : src_DeleteStore =
-  ["return s.Remove(s.storePath(store.GetId()))"].
+  ["id := store.GetId()"; "oldLeader, err := s.Load(s.storeLeaderWeightPath(id))"; "if err != nil { return err }"; "oldRegion, err := s.Load(s.storeRegionWeightPath(id))"; "if err != nil { return err }"; "err = s.Remove(s.storeLeaderWeightPath(id))"; "if err == nil { err = s.Remove(s.storeRegionWeightPath(id)) }"; "if err == nil { err = s.Remove(s.storePath(id)) }"; "if err != nil { s.restoreWeight(s.storeLeaderWeightPath(id), oldLeader) s.restoreWeight(s.storeRegionWeightPath(id), oldRegion) }"; "return err"].
 Proof. reflexivity. Qed.
 
 Lemma src_SaveStoreWeight_ok : src_SaveStoreWeight =
-  ["leaderValue := strconv.FormatFloat(leader, 'f', -1, 64)"; "if err := s.Save(s.storeLeaderWeightPath(storeID), leaderValue); err != nil { return err }"; "regionValue := strconv.FormatFloat(region, 'f', -1, 64)"; "return s.Save(s.storeRegionWeightPath(storeID), regionValue)"].
+  ["oldLeader, err := s.Load(s.storeLeaderWeightPath(storeID))"; "if err != nil { return err }"; "oldRegion, err := s.Load(s.storeRegionWeightPath(storeID))"; "if err != nil { return err }"; "leaderValue := strconv.FormatFloat(leader, 'f', -1, 64)"; "regionValue := strconv.FormatFloat(region, 'f', -1, 64)"; "err = s.Save(s.storeLeaderWeightPath(storeID), leaderValue)"; "if err == nil { err = s.Save(s.storeRegionWeightPath(storeID), regionValue) }"; "if err != nil { s.restoreWeight(s.storeLeaderWeightPath(storeID), oldLeader) s.restoreWeight(s.storeRegionWeightPath(storeID), oldRegion) }"; "return err"].
 Proof. reflexivity. Qed.
 
 Lemma src_mem_LoadRange_ok : src_mem_LoadRange =
